@@ -25,8 +25,11 @@
 
 enum { PATH = 0x40, IOV = 0x100, BUFS = 0x200, BUFSTEP = 0x20, RES = 0x400, STAT = 0x500, GUEST = 8192, FILL = 0xAA };
 
-static const int shapeN[5] = {0, 1, 1, 3, 3};
-static const U32 shapeLen[5][3] = {{0, 0, 0}, {3, 0, 0}, {0, 0, 0}, {2, 0, 3}, {1, 1, 1}};
+static const int shapeN[6] = {0, 1, 1, 3, 3, 2};
+static const U32 shapeLen[6][3] = {{0, 0, 0}, {3, 0, 0}, {0, 0, 0}, {2, 0, 3}, {1, 1, 1}, {2, 3, 0}};
+/* shape 5: the second segment ends exactly at the last byte of guest memory (buf + len == memory size is in bounds) */
+static U32 segAddr(int shape, int j) { return shape == 5 && j == 1 ? GUEST - 3 : BUFS + j * BUFSTEP; }
+static U32 segSpan(int shape, int j) { return shape == 5 && j == 1 ? 3 : BUFSTEP; }
 
 typedef struct { U32 wfd; int tfd; char name[8]; int rights, append; } Desc;
 static Desc live[16];
@@ -55,23 +58,23 @@ static int nativeFd(U32 wfd) {
 static void marshal(int shape, int forWrite, struct iovec* tv) {
     int j; U32 i;
     for (j = 0; j < shapeN[shape]; j++) {
-        U32 v[2] = {BUFS + j * BUFSTEP, shapeLen[shape][j]};
+        U32 v[2] = {segAddr(shape, j), shapeLen[shape][j]};
         hx_put(IOV + 8 * j, v, 8);
-        memset(hx_mem.data + v[0], FILL, BUFSTEP);
+        memset(hx_mem.data + v[0], FILL, segSpan(shape, j));
         memset(tbuf[j], FILL, BUFSTEP);
         if (forWrite) for (i = 0; i < v[1]; i++) hx_mem.data[v[0] + i] = tbuf[j][i] = (U8)('a' + 4 * j + i);
         tv[j].iov_base = tbuf[j];
         tv[j].iov_len = v[1];
     }
     hx_snapshot();
-    if (!forWrite) for (j = 0; j < shapeN[shape]; j++) hx_allow(BUFS + j * BUFSTEP, shapeLen[shape][j]);
+    if (!forWrite) for (j = 0; j < shapeN[shape]; j++) hx_allow(segAddr(shape, j), shapeLen[shape][j]);
 }
 
 static void compareBuffers(int shape) {
     int j;
     for (j = 0; j < shapeN[shape]; j++)
-        if (memcmp(hx_mem.data + BUFS + j * BUFSTEP, tbuf[j], BUFSTEP) != 0) {
-            fprintf(hx_out, "X %d data segment=%d impl=", step, j); hx_hex(hx_out, hx_mem.data + BUFS + j * BUFSTEP, 8);
+        if (memcmp(hx_mem.data + segAddr(shape, j), tbuf[j], segSpan(shape, j)) != 0) {
+            fprintf(hx_out, "X %d data segment=%d impl=", step, j); hx_hex(hx_out, hx_mem.data + segAddr(shape, j), segSpan(shape, j) < 8 ? segSpan(shape, j) : 8);
             fprintf(hx_out, " want="); hx_hex(hx_out, tbuf[j], 8); fprintf(hx_out, "\n");
             failed = 1;
         }
@@ -152,6 +155,7 @@ static void run(char* history) {
         const char* name = "?";
         struct iovec tv[3];
         ssize_t tn;
+        errno = EXDEV;      /* environment: errno holds an unrelated stale value when a WASI call begins; no result may depend on it */
         memset(hx_mem.data + RES, FILL, 8);
         hx_snapshot();
         switch (f[0][0]) {
